@@ -212,8 +212,12 @@ WriteDone(s, h, n) ==
 WriteFailed(s, h) == /\ sk[s].wr # None /\ sk[s].wr.h = h /\ sk[s].eofRead
                      /\ sk' = [sk EXCEPT ![s].wr = None]
                      /\ UNCHANGED <<now, nat, lst, cn, st>>
-StartRead(s, h, style, cap) == /\ sk[s].conn # 0 /\ ~sk[s].closed /\ sk[s].rd = None
-                               /\ sk' = [sk EXCEPT ![s].rd = [h |-> h, style |-> style, cap |-> cap]]
+\* a new read / wait-for-read supersedes an outstanding one, which completes with operation_aborted (C04) -
+\* unless it had already completed when the new one was issued: then its handler still reports its data (the *Late
+\* actions below), once, consuming the owed completion
+StartRead(s, h, style, cap) == /\ sk[s].conn # 0 /\ ~sk[s].closed
+                               /\ sk' = [sk EXCEPT ![s].rd = [h |-> h, style |-> style, cap |-> cap],
+                                                   ![s].aborting = @ + (IF sk[s].rd # None THEN 1 ELSE 0)]
                                /\ UNCHANGED <<now, nat, lst, cn, st>>
 Deliverable(s) == st[StreamIn(s)].inorder - st[StreamIn(s)].deliv
 EofDeliverable(s) == LET k == StreamIn(s) IN
@@ -230,6 +234,19 @@ ReadData(s, h, n, sid, off) ==
     /\ st' = [st EXCEPT ![StreamIn(s)].deliv = @ + n]
     /\ sk' = [sk EXCEPT ![s].rd = None]
     /\ UNCHANGED <<now, nat, lst, cn>>
+\* the natural completions of a superseded read that had completed before it was superseded
+ReadDataLate(s, n, sid, off) ==
+    /\ sk[s].aborting > 0 /\ ~sk[s].eofRead /\ n >= 1
+    /\ Lenient \/ (n <= Deliverable(s) /\ sid = Sid(StreamIn(s)) /\ off = st[StreamIn(s)].deliv)
+    /\ st' = [st EXCEPT ![StreamIn(s)].deliv = @ + n]
+    /\ sk' = [sk EXCEPT ![s].aborting = @ - 1]
+    /\ UNCHANGED <<now, nat, lst, cn>>
+ReadEofLate(s) == /\ sk[s].aborting > 0 /\ EofDeliverable(s)
+                  /\ sk' = [sk EXCEPT ![s].aborting = @ - 1, ![s].eofRead = TRUE]
+                  /\ UNCHANGED <<now, nat, lst, cn, st>>
+ReadyLate(s) == /\ sk[s].aborting > 0 /\ (Deliverable(s) > 0 \/ EofDeliverable(s))
+                /\ sk' = [sk EXCEPT ![s].aborting = @ - 1]
+                /\ UNCHANGED <<now, nat, lst, cn, st>>
 \* end of file: only after every byte written before the peer closed was delivered
 ReadEof(s, h) == /\ sk[s].rd # None /\ sk[s].rd.h = h /\ EofDeliverable(s)
                  /\ sk' = [sk EXCEPT ![s].rd = None, ![s].eofRead = TRUE]
